@@ -1,3 +1,7 @@
+// Verification builds resolve `std` to a facade (see `src/verif.rs`).
+#[cfg(divan_verif)]
+use ::divan_verif_rt::shim as std;
+
 use std::{
     ptr,
     sync::atomic::{AtomicPtr, Ordering as AtomicOrdering},
